@@ -48,14 +48,26 @@ func VpHSeq() {
 	})
 
 	db := &DB{}
-	bw := uint64(1 + vpChoose("bandwidth", 2))
+	// bandwidths are arbitrary (per Sequence object), and the key may already hold an arbitrary
+	// lease written by earlier processes: the lease arithmetic is decided by the solver, not
+	// enumerated. (< 2^62 keeps next+bandwidth from wrapping, which no real deployment reaches.)
+	var bws [2]uint64
+	for i := range bws {
+		bws[i] = vpU64("bandwidth")
+		vpAssume(vpAnd(bws[i] >= 1, bws[i] <= 1<<32))
+	}
+	if vpChoose("preexisting", 2) == 1 {
+		stored, exists = vpU64("stored0"), true
+		vpAssume(stored < 1<<62)
+		vpCover("seq.preexisting-lease")
+	}
 	key := []byte("k")
 	var seqs [2]*Sequence
 	for i := range seqs {
-		s, err := db.GetSequence(key, bw)
+		s, err := db.GetSequence(key, bws[i])
 		if err != nil {
 			// a failed GetSequence hands out an unusable object; the caller would retry
-			s, err = db.GetSequence(key, bw)
+			s, err = db.GetSequence(key, bws[i])
 			vpAssume(err == nil)
 		}
 		seqs[i] = s
@@ -88,7 +100,7 @@ func VpHSeq() {
 			vpCover("seq.release")
 		case 3:
 			// crash / restart of the process holding sequence 1: in-memory state is dropped
-			s, err := db.GetSequence(key, bw)
+			s, err := db.GetSequence(key, bws[1])
 			if err != nil {
 				continue
 			}
